@@ -29,8 +29,6 @@ def triple_class(tr, dialect=None):
     """the known class of one structurally bad (parent, site, child) triple of Model/SqlCompat.v, or None.
     Mirrors Model/SqlCompat.v `known_triple`."""
     p, site, c = tr
-    if c in DISHONEST:
-        return F["F5"]
     if p == "concat" and dialect in NO_CONCAT_FUNCTION:
         return F["N7"]
     return None
@@ -40,8 +38,6 @@ def pair_class(pr):
     """an unlicensed rotated operator pair (spellings) deeper on a spine: only a dishonest template (top-level
     `*` or `/` under a declared strength 100) still produces one"""
     o, o2 = pr
-    if o in ("%", "/", "*") and o2 in ("*", "/"):
-        return F["F5"]
     return None
 
 
